@@ -68,6 +68,7 @@ type orchCall struct {
 	decide  map[string]chan string // stage -> outcome
 	backend *scripted.Backend
 	done    bool
+	regSeen bool
 }
 
 type orchRun struct {
@@ -141,6 +142,22 @@ func newOrchRun(sc orchScenario) *orchRun {
 		func(uint16) tss.Signer { return r.newBackend() },
 		sc.Threshold, send, func() map[tss.UniversalID]tss.PartyID { return membership })
 	r.sch = party.(*threshold.Scheme)
+	// the injected broadcast factory runs right before the continuation registers its handlers: a plan may pause there
+	origRBF := r.sch.RBF
+	r.sch.RBF = func(b tss.BroadcastFunc, f tss.ForwardFunc, n int) tss.ReliableBroadcast {
+		r.mu.Lock()
+		c := r.current
+		pause := c != nil && c.plan.Late == "reg" && !c.regSeen
+		if pause {
+			c.regSeen = true
+		}
+		r.mu.Unlock()
+		if pause {
+			r.signals <- orchSignal{c: c.id, what: "reg"}
+			<-c.decide["reg"]
+		}
+		return origRBF(b, f, n)
+	}
 	r.sch.SyncFactory = func(members []uint16, _ func([]byte), _ func([]byte, uint16)) tss.Synchronizer {
 		st := &scripted.StubSync{}
 		st.Plan = func(ctx context.Context, topic []byte, expected int) ([]uint16, error) {
@@ -266,7 +283,7 @@ func orchExec(ti int, sc orchScenario) []obj {
 		case "call":
 			ctx, cancel := context.WithCancel(context.Background())
 			c := &orchCall{id: op.C, kind: op.Kind, topic: op.Topic, plan: op.Plan, cancel: cancel,
-				decide: map[string]chan string{"s1": make(chan string, 1), "s2": make(chan string, 1)}}
+				decide: map[string]chan string{"s1": make(chan string, 1), "s2": make(chan string, 1), "reg": make(chan string, 1)}}
 			r.mu.Lock()
 			r.calls[op.C] = c
 			if op.Kind == "kg" {
@@ -307,7 +324,7 @@ func orchExec(ti int, sc orchScenario) []obj {
 		case "step", "late":
 			c := r.calls[op.C]
 			stage := op.Label // the stage to resolve: s1 | s2 | be
-			outcome := map[string]string{"s1": c.plan.S1, "s2": c.plan.S2, "be": c.plan.Be}[stage]
+			outcome := map[string]string{"s1": c.plan.S1, "s2": c.plan.S2, "be": c.plan.Be, "reg": "ok"}[stage]
 			if op.E == "late" {
 				outcome = "ok"
 			}
@@ -410,8 +427,18 @@ func orchExec(ti int, sc orchScenario) []obj {
 		default:
 			rc = "err"
 		}
+		// a lock of the orchestrator that is never released again shows here: the table snapshot does not return
+		tch := make(chan obj, 1)
+		go func() { tch <- r.tables() }()
+		var tables obj
+		select {
+		case tables = <-tch:
+		case <-time.After(3 * time.Second):
+			lines = append(lines, obj{"t": ti, "e": "crash", "hang": true, "detail": fmt.Sprintf("the orchestrator is wedged after %s of call %d (its lock is never released)", op.E, op.C)})
+			return append(lines, obj{"t": ti, "e": "end"})
+		}
 		lines = append(lines, obj{"t": ti, "e": op.E, "c": op.C, "kind": op.Kind, "topic": op.Topic, "label": op.Label, "from": op.From, "to": op.To,
-			"expect": op.Expect, "got": got, "res": rc, "detail": res, "tables": r.tables(), "onmsg": onmsg, "synch": synch, "sends": sends,
+			"expect": op.Expect, "got": got, "res": rc, "detail": res, "tables": tables, "onmsg": onmsg, "synch": synch, "sends": sends,
 			"panic": panicked, "initn": initc, "initp": initp, "probe": op.Probe, "plan": op.Plan, "self": sc.Self,
 			"participants": sc.Participants, "dupparticipants": sc.DupParticipants})
 	}
@@ -424,6 +451,9 @@ func orchExec(ti int, sc orchScenario) []obj {
 			default:
 			}
 		}
+		r.mu.Lock()
+		c.regSeen = true
+		r.mu.Unlock()
 		if c.backend != nil {
 			select {
 			case c.backend.Release <- scripted.Result{Err: fmt.Errorf("end")}:
